@@ -89,6 +89,22 @@ Theorem C17_handlers_are_the_regenerated_list : forall mc p,
 Proof. exact mirror_handlers_regen. Qed.
 Print Assumptions C17_handlers_are_the_regenerated_list.
 
+(* ---- T19: which events reach the mirror's handlers at all is decided by DigitalRFEventHandler.dispatch, which they
+   inherit: its body (path classification, move rewriting, the time of a file name INCLUDING its millisecond part,
+   the window comparisons), regenerated from watchdog_drf.py on every run, equals the model of Model/Events.v *)
+From DRF Require Import Base.Regex Model.PathSpec Model.Events Gen.DispatchGen Proofs.DispatchGenProofs.
+Theorem C17_event_filter_is_the_regenerated_code : forall rs st en mt ev,
+  gen_dispatch_rs rs st en mt ev = dispatch_rs rs st en mt ev.
+Proof. exact dispatch_rs_regen. Qed.
+Print Assumptions C17_event_filter_is_the_regenerated_code.
+
+Theorem C17_event_time_counts_milliseconds : forall c s f,
+  group Gen.Grammar.g_secs c = Some s -> group Gen.Grammar.g_frac c = Some f ->
+  forall sv fv, int_of s = Some sv -> int_of f = Some fv ->
+  gen_time_of c = Time (sv * 1000000 + fv * 1000)%Z.
+Proof. intros c s f Hs Hf sv fv Hsv Hfv. unfold gen_time_of. rewrite Hs, Hsv, Hf, Hfv. reflexivity. Qed.
+Print Assumptions C17_event_time_counts_milliseconds.
+
 (* ---- T17: the sources this property rests on keep no state outside the objects the model has (no static locals
    or mutable globals in C, no class-level / module-level containers, `global` rebinding or cache decorators in
    Python): the list of such sites, regenerated from the sources on every run, is empty *)
